@@ -41,6 +41,13 @@ CLAIMED.update({
         technique="Coq induction over the character list of the escaped string + exhaustive differential correspondence on short templates", design="7/C12"),
 })
 
+CLAIMED.update({
+    "C16": dict(
+        text="Machine-checked (Coq, closed): captures_len is 1 + the number of capturing groups on both the delegated and the VM path (C16_len), the analysis numbers groups in pre-order (C16_group_range), Captures::get returns None beyond len and len of the truncated save vector is the group count (C16_get_oob, C16_len_truncated). The accessor consistency (iter = get(i), name(n) = get(index), get(0) is Some, capture_names at the parser's indices) is evaluated on the real crate for every generated pattern/text/offset and tied to the API model.",
+        note="Trusted: Coq kernel, extraction, harness. Group NAMES come from the real parser (the parser is not modelled yet), so the name->index part is validated, not proved. For the delegated path the group count of regex-automata equals the model's count by the oracle assumption (checked on every run).",
+        technique="Coq lemmas on the analysis functions + differential correspondence of all accessors", design="7/C16"),
+})
+
 PENDING_REASON = "check not built yet in this revision (see DESIGN.md section 12 build order); not claimed until its theorem and correspondence check exist"
 
 
